@@ -7,7 +7,8 @@ stdin : JSON list of scenarios
 Every call is an AsyncPolicy call run as a hand-driven coroutine; its operation suspends once per attempt, so other calls can
 run between its admission and its settlement.  A schedule step advances the virtual clock by dt and resumes (or cancels) one
 call; calls still unfinished when the schedule ends are drained in index order.
-stdout: per scenario {"log": breaker API calls in order, "calls": per call how it ended}
+stdout: per scenario {"log": breaker API calls in order, "calls": per call how it ended, "event_state_tags_wrong": breaker events whose
+  `state` tag differed from the breaker's state when the hook received them}
   log entry: ["A", call, t, allowed, decision state, event] | ["S", call, "succ"|"fail"|"cancel", klass|None, t, event]
              each followed by [state after, probe_in_flight after]
 """
@@ -69,6 +70,7 @@ class World:
     def __init__(self, sc):
         self.log = []
         self.cur = None
+        self.tags_bad = []
         k = sc["breaker"]
         kw = {}
         if k.get("trip_on") is not None:
@@ -103,7 +105,13 @@ class World:
                                strategy=lambda ctx: 0.0, max_attempts=call["max_attempts"], deadline_s=10**6 * vclock.TICK,
                                sleeper=nosleep)
         pol = AsyncPolicy(retry=retry, circuit_breaker=self.breaker)
-        return getattr(pol, call["mode"])(op)
+        brk, tags_bad = self.breaker, self.tags_bad
+
+        def on_metric(event, attempt, sleep_s, tags):
+            # a breaker event says which state the breaker is in (C14): compare with the breaker itself at that moment
+            if str(event).startswith("circuit_") and tags.get("state") != brk.state.value and len(tags_bad) < 5:
+                tags_bad.append([event, tags.get("state"), brk.state.value])
+        return getattr(pol, call["mode"])(op, on_metric=on_metric)
 
 
 def describe(fin):
@@ -161,7 +169,7 @@ def run(sc):
             step(i, "go")
             guard += 1
     return {"log": w.log, "calls": [describe(done[i]) if i in done else ["unfinished"] for i in range(len(sc["calls"]))],
-            "end": CLOCK.ticks}
+            "end": CLOCK.ticks, "event_state_tags_wrong": w.tags_bad}
 
 
 if __name__ == "__main__":
